@@ -18,6 +18,7 @@ RULE = ("cases drawn from one PRNG (VERIF_SEED). A case is a scripted session ag
         "SsrSharedContext (new / new_islands / default, or the one leptos_integration_utils::build_response creates "
         "together with its owner and its <script> wrapping, with and without a nonce): next_id, set_is_hydrating, "
         "write_async(id, future), register_error, seal_errors, set_incomplete_chunk, pending_data, complete-future-k, poll, "
+        "write_async from a second thread while poll_next is polling a data future (family cross-thread, oracle only), "
         "errors(), take_errors(), await_deferred(), get_incomplete_chunk, real Resource / ArcResource / OnceResource / "
         "ArcOnceResource / SharedValue creation under an Owner through new_with_options / new_with_encoding and through every "
         "named constructor (new, new_str, new_miniserde, new_serde_lite, new_rkyv and their _blocking forms) with a codec for "
@@ -173,6 +174,9 @@ def strings_of(script):
     for cmd in script:
         if cmd[0] == 2:
             out.append(cmd[2])
+        elif cmd[0] == 20:
+            out.append(cmd[2])
+            out.append(cmd[4])
         elif cmd[0] == 3:
             out.append(cmd[3])
         elif cmd[0] == 12:
@@ -200,7 +204,7 @@ def codecs_of(script):
     return out
 
 
-UNMODELLED_OPS = (16, 17, 18)
+UNMODELLED_OPS = (16, 17, 18, 20)
 
 
 def compared(mode, script):
@@ -217,6 +221,8 @@ def ready_gates(cmd, first):
     """(number of case-controlled futures cmd adds, those among them that are ready from the start)"""
     if cmd[0] == 2:
         return 1, []
+    if cmd[0] == 20:
+        return 2, []
     if cmd[0] == 12:
         if cmd[1] == 2:
             return 0, []
@@ -587,6 +593,40 @@ def gen_session(rng, ids_focus=False):
     return finish(mode, script, "ids" if ids_focus else "session")
 
 
+def gen_cross(rng):
+    """data registered from another thread while the stream is polling (cmd 20): some ordinary futures,
+    one whose first poll lets a second thread call write_async, polls, completions in a random order"""
+    mode = rng.choice([0, 0, 1, 4])
+    script = []
+    if mode == 1:
+        script.append([1, 1])
+    n_ids = 0
+    n_gates = 0
+    for _ in range(rng.randint(0, 2)):
+        script.append([0])
+        n_ids += 1
+        script.append([2, [1, n_ids - 1], cps(text(rng, 5))])
+        n_gates += 1
+    script += [[0], [0]]
+    n_ids += 2
+    script.append([20, [1, n_ids - 2], cps(text(rng, 5)), [1, n_ids - 1], cps(text(rng, 5))])
+    n_gates += 2
+    if rng.random() < 0.5:
+        script.append([0])
+        n_ids += 1
+        script.append([2, [1, n_ids - 1], cps(text(rng, 4))])
+        n_gates += 1
+    script.append([6])
+    script.append([8])
+    order = list(range(n_gates))
+    rng.shuffle(order)
+    for k in order:
+        script.append([7, k])
+        if rng.random() < 0.6:
+            script.append([8])
+    return finish(mode, script, "cross-thread")
+
+
 def gen_consume(rng):
     """several futures, then consume_buffers() with a random completion order (also orders in
     which a later-registered future completes first); sometimes the stream afterwards"""
@@ -647,6 +687,8 @@ def generate(rng, tier):
         batch.append(lambda: gen_wake(rng))
     for i in range(12 if tier == "quick" else 200):
         batch.append(lambda: gen_many(rng))
+    for i in range(12 if tier == "quick" else 100):
+        batch.append(lambda: gen_cross(rng))
     for i in range(n):
         r = rng.random()
         if r < 0.30:
@@ -834,6 +876,13 @@ def oracle(item, impl):
             n_gates[0] += 1
             if not stream_over() and not consumed[0]:
                 writes.setdefault(resolve(cmd[1]), []).append(s_of(cmd[2]))
+        elif op == 20:
+            # two registrations: the second one is made by another thread while the stream polls the first
+            for src, txt in ((cmd[1], cmd[2]), (cmd[3], cmd[4])):
+                in_buffer.add(n_gates[0])
+                n_gates[0] += 1
+                if not stream_over() and not consumed[0]:
+                    writes.setdefault(resolve(src), []).append(s_of(txt))
         elif op == 3:
             errors.append((resolve(cmd[1]), resolve(cmd[2]), s_of(cmd[3]), not stream_over()))
         elif op == 4:
@@ -1204,7 +1253,8 @@ def describe(it):
         return "debug classes of %r" % s_of(case[1])
     names = {0: "next_id", 1: "set_is_hydrating", 2: "write_async", 3: "register_error", 4: "seal_errors",
              5: "set_incomplete_chunk", 6: "pending_data", 7: "complete", 8: "poll", 9: "errors", 10: "get_incomplete_chunk",
-             12: "resource", 14: "consume_buffers", 16: "was-the-latest-waker-woken?", 17: "take_errors", 18: "await_deferred"}
+             12: "resource", 14: "consume_buffers", 16: "was-the-latest-waker-woken?", 17: "take_errors", 18: "await_deferred",
+             20: "write_async+second-thread-write_async-during-the-first-poll"}
     out = []
     for cmd in case[3]:
         if cmd[0] == 12:
